@@ -173,11 +173,11 @@ int main() {{
         for (int i = 0; i < NREACTIONS; i++) k[i] = 0.0;
         EvalRates(k, y, &d);
         put(o, k, NREACTIONS);
-        Fex f(&d); f(x, dx, 0.0);
+        Fex f0(&d); Fex f(f0); f(x, dx, 0.0);   /* odeint takes the functors by value: what runs is always a copy */
         for (int i = 0; i < NEQUATIONS; i++) {{ double v = dx[i]; put(o, &v, 1); }}
         put_extras(o, y, &d);
         matrix_type m(NEQUATIONS, NEQUATIONS);
-        Jac j(&d); j(x, m, 0.0, dfdt);
+        Jac j0(&d); Jac j(j0); j(x, m, 0.0, dfdt);
         for (int r = 0; r < NEQUATIONS; r++) for (int c = 0; c < NEQUATIONS; c++) {{ double v = m(r, c); put(o, &v, 1); }}
         for (int i = 0; i < NEQUATIONS; i++) {{ double v = dfdt[i]; put(o, &v, 1); }}
         free(k); free(y);
